@@ -649,7 +649,7 @@ LABELS = ["F", "F_a", "F_timeout", "F_b c", "Fail,1"]
 
 EDGE = [0.0, -0.0, 1e300, -1e300, 5e-324, 2.2250738585072014e-308, 1.7976931348623157e308, 1.0, 1.0000000000000002, 0.9999999999999999,
         123456789.12345679, 123456789.12345678, 9007199254740993, 2 ** 63 + 1, -(2 ** 64), 1e-310]
-EDGE_MULTI = [0.0, -0.0, 1e300, -1e300, 5e-324, 1e-310, 1.0, 2 ** 63 + 1]      # well separated (the table goes through pandas)
+EDGE_MULTI = [0.0, -0.0, 1e300, -1e300, 5e-324, 1e-310, 1.0, 4503599627370497.0]   # exact through pandas (integers beyond 2^53 drift by an ulp there)
 MD_ODD = [0, 0.0, "", None, False, True, [1, 2], {"k": 1}, "a\nb", [], "0"]
 
 
